@@ -49,9 +49,9 @@ def part_pipeline(ctx):
     """whole pipelines with n_iter / epsilon: recorded matrices decided by Trace_EM.tla"""
     rng = random.Random(ctx.seed + 3)
     jobs = []
-    fams = ["token", "token", "timed", "timed", "multi", "multi", "ngram"]
+    fams = ["token", "token", "token", "timed", "timed", "timed", "multi", "multi", "multi", "ngram"]
     KW = {"flat": [1, 1, 1], "harmonic": [2, 1], "geometric": [4, 2, 1]}
-    for k in range(ctx.pick(100, 900)):
+    for k in range(ctx.pick(80, 900)):
         fam = rng.choice(fams)
         V = 3
         nd = rng.randint(1, 3)
@@ -103,9 +103,13 @@ def part_pipeline(ctx):
     # the iteration itself: consecutive recorded matrices are related by the documented step (interval arithmetic in TLC)
     chain, cown = [], []
     for j, r in zip(jobs, res):
-        if j["family"] in ("token", "timed", "multi") and r and "codes" in r and r.get("finite"):
-            chain.append({"family": "multi" if j["family"] == "multi" else "token", "V": j["V"], "r": j["r"], "eps": int(round(j["eps"] * 10 ** 6)), "corpus": j["corpus"], "mats": r["codes"],
-                          "kw": ([1, 1, 1, 1] if j["kernel"] == "flat" else [8, 4, 2, 1]) if j["family"] == "multi" else KW[j["kernel"]]})
+        if r and "codes" in r and r.get("finite"):
+            rec = {"family": j["family"] if j["family"] in ("multi", "ngram") else "token", "V": j["V"], "r": j["r"],
+                   "eps": int(round(j["eps"] * 10 ** 6)), "corpus": j["corpus"], "mats": r["codes"], "N": 2, "grams": [],
+                   "kw": ([1, 1, 1, 1] if j["kernel"] == "flat" else [8, 4, 2, 1]) if j["family"] == "multi" else KW[j["kernel"]]}
+            if j["family"] == "ngram":
+                rec.update(corpus=r["extra"]["ng_corpus"], grams=r["extra"]["ng_grams"], V=r["extra"]["ng_V"])
+            chain.append(rec)
             cown.append(j)
     tmp = tempfile.mkdtemp(prefix="verif_tr_")
     try:
@@ -115,7 +119,7 @@ def part_pipeline(ctx):
         r = tlc.run_tlc("Trace_EMChain", {}, spec="Spec", invariants=["Verdict"], workers=1, env={"TRACE_FILE": path}, timeout=3000, heap="6g")
     finally:
         shutil.rmtree(tmp, ignore_errors=True)
-    ctx.add_tlc(r, "Trace_EMChain on %d recorded token/timed/multiset pipelines" % len(chain))
+    ctx.add_tlc(r, "Trace_EMChain on %d recorded pipelines (all four families)" % len(chain))
     verdicts = {int(p["verdict"]): p for p in r.prints if "verdict" in p}
     if len(verdicts) != len(chain):
         raise MachineryError("Trace_EMChain returned %d verdicts for %d runs\n%s" % (len(verdicts), len(chain), r.raw[-1500:]))
